@@ -9,6 +9,7 @@ import (
 	"io"
 	"os"
 	"runtime/debug"
+	"runtime/pprof"
 	"strconv"
 	"time"
 
@@ -52,6 +53,11 @@ func main() {
 		if n, err := strconv.ParseInt(v, 10, 64); err == nil {
 			seed = uint64(n)
 		}
+	}
+	if pf := os.Getenv("VERIF_CPUPROFILE"); pf != "" {
+		f, _ := os.Create(pf)
+		pprof.StartCPUProfile(f)
+		defer pprof.StopCPUProfile()
 	}
 	switch os.Args[1] {
 	case "list":
